@@ -96,6 +96,17 @@ class Check(object):
         ok, found, expect = fn()
         return self.ob(rule, desc, ok, site=site, found=found, expect=expect, key=key)
 
+    def attempt(self, label, fn):
+        """run one group of obligations; an AnalysisError inside it is recorded
+        and the remaining groups still run"""
+        try:
+            return fn()
+        except AnalysisError as e:
+            self.error("%s: %s" % (label, e))
+        except RecursionError as e:
+            self.error("%s: recursion limit (%s)" % (label, e))
+        return None
+
     def assume(self, text):
         if text not in self.assumptions:
             self.assumptions.append(text)
@@ -158,9 +169,11 @@ class Check(object):
             print("  rule %-10s instances=%-4d %s" % (rid, self.rule_instances.get(rid, 0), self.rule_desc[rid]))
         for l in lines:
             print(l)
+        if nviol:
+            return 1
         if self.errors:
             return 2
-        return 1 if nviol else 0
+        return 0
 
     def _write_evidence(self, nviol, nknown, wall):
         obs = self.obligations
